@@ -345,12 +345,23 @@ fn read_dump(path: &str) -> Vec<(String, String, Vec<f32>)> {
     out
 }
 
-/// Allowed |a-b| for a comparison class and mode; None = must be bit-identical.
+/// Allowed |a-b| for a comparison class and mode; None = must be identical (discrete data).
 fn tolerance(mode: &str, class: &str, a: f32) -> Option<f64> {
     let v = a.abs() as f64;
+    // Where the configuration difference cannot matter the builds execute the same arithmetic and
+    // are expected to agree exactly; the property only promises "precision only", so a few ulps
+    // (e.g. a libm call constant-folded at one optimisation level) are tolerated for float data.
+    let ulps = Some(5e-7 * v + 1e-9);
+    if class == "verdict" {
+        return None;
+    }
+    if class == "encode" {
+        // integer codes: identical unless FMA changes the rounding of the matrix product
+        return if mode == "fma" { Some(1.0) } else { None };
+    }
     match mode {
         // same features and target, other optimisation/assertion profile: same arithmetic
-        "profile" => None,
+        "profile" => ulps,
         // fastmath on vs off (same FMA, same profile): only the math helpers may differ, within the fastmath budget
         "fastmath" => match class {
             "curve" => Some(2.5e-4),
@@ -360,7 +371,7 @@ fn tolerance(mode: &str, class: &str, a: f32) -> Option<f64> {
             "cbrtf" => Some(2.4e-7 * v.max(1e-30)),
             "expf" => Some(1e-5 * v),
             "powf" => Some(9e-4 * v),
-            _ => None, // decode, encode, primaries do not use the math helpers
+            _ => ulps, // decode, primaries do not use the math helpers
         },
         // FMA on vs off: both within each property's budget of the truth
         _ => match class {
@@ -369,12 +380,11 @@ fn tolerance(mode: &str, class: &str, a: f32) -> Option<f64> {
             "xyb" => Some(4e-6),
             "xyb_inv" => Some(1e-4),
             "decode" => Some(6e-6),
-            "encode" => Some(1.0),
             "primaries" => Some(2e-5 * v.max(1.0)),
             "cbrtf" => Some(2.4e-7 * v.max(1e-30)),
             "expf" => Some(2e-5 * v),
             "powf" => Some(1.8e-3 * v),
-            _ => None,
+            _ => ulps,
         },
     }
 }
